@@ -13,7 +13,7 @@ WRAPS     := -Wl,--wrap=memcpy,--wrap=memmove,--wrap=memset,--wrap=__cxa_guard_a
 RT_FLAGS  := -std=c++17 -O2 -g -Wall -Wextra -Wno-unused-parameter -fno-omit-frame-pointer
 W_COMMON  := -std=c++17 -g -Wall -Wextra -Wno-unused-parameter -fno-exceptions -DQENTEM_VERIF_SIM -I$(REPO)/Include
 TRACE_FL  := -O1 -fno-builtin -fsanitize=thread -fsanitize-coverage=trace-pc-guard
-SAN_FL    := -O1 -fsanitize=address,bounds,null,integer-divide-by-zero,float-divide-by-zero,return,unreachable -fno-sanitize-recover=all -fno-omit-frame-pointer -DQSIM_SAN
+SAN_FL    := -O1 -fsanitize=address,bounds,null,integer-divide-by-zero,return,unreachable -fno-sanitize-recover=all -fno-omit-frame-pointer -DQSIM_SAN
 
 SIMD_sse2   := -DQENTEM_SSE2=1 -msse2
 SIMD_scalar :=
